@@ -194,12 +194,13 @@ PROPS = {
         'not_decided': ['the second sentence of C13 (a build yields a C01 forest for every thread-pool size): decided as "the build contract (C01) is proved from per-root results whose only interaction is that their fresh ids are pairwise different and not in the database (glue_post + A5)", for every schedule that satisfies the generator contract'],
     },
     'C14': {
-        'verus': {'leafs_new': ['ImmutableLeafs::new'], 'tree_insert': TREE_INSERT,
+        'verus': {'leafs_new': ['ImmutableLeafs::new'], 'insert_driver': ['Writer::insert_items_in_current_trees'], 'incr_driver': ['Writer::incremental_index_large_descendants'],
+                  'build': ['Writer::build'], 'tree_insert': TREE_INSERT,
                   'tree_delete': ['Writer::delete_items_in_file', 'lemma_del_fit', 'lemma_del_one_side_empty', 'lemma_del_keep', 'lemma_del_common']},
-        'assumed_fns': FROZEN_ASSUMED,
-        'trusted': ['available_memory is an unconstrained Option<usize> / usize in every contract: what is proved holds for every value including 0',
+        'assumed_fns': FROZEN_ASSUMED + MAKE_ASSUMED + WB_ASSUMED + BUILD_ASSUMED,
+        'trusted': ['available_memory is an unconstrained Option<usize> / usize in every contract: what is proved holds for every value including 0; Writer::build and its drivers are proved to produce the same `built` postcondition whatever its value',
                     'pages_allowed_ (the f64 floor of memory / page_size) and the page bookkeeping are uninterpreted: the partition and progress results do not depend on them'],
-        'not_decided': ['termination of the batching loops of insert_items_in_current_trees / incremental_index_large_descendants and of make_tree_in_file (no decreases clause: the split heuristic is random); what is proved is the per-pass progress of ImmutableLeafs::new (a non-empty candidate set always yields a non-empty selection of at least min_items ids or everything) and that no candidate is lost or duplicated. A non-termination defect found on the way (F8: capacity >= 200 with a tiny memory hint) was repaired in /repo (known_findings.json)'],
+        'not_decided': ['termination of the queue loop of incremental_index_large_descendants and of the recursion of make_tree_in_file (no decreases clause: the split heuristic is random). The batching loop of insert_items_in_current_trees HAS a verified decreases clause (the set of pending ids strictly shrinks at every pass, for every memory hint), relative to the termination of the calls it makes; what is proved is the per-pass progress of ImmutableLeafs::new (a non-empty candidate set always yields a non-empty selection of at least min_items ids or everything) and that no candidate is lost or duplicated. A non-termination defect found on the way (F8: capacity >= 200 with a tiny memory hint) was repaired in /repo (known_findings.json)'],
     },
     'C15': {
         'verus': {'tree_count': ['Writer::fit_in_descendant', 'target_n_trees'], 'writer_scans': ['Writer::clear_db_and_create_a_single_leaf'],
